@@ -116,7 +116,7 @@ Fillers == <<
    Rep(La, 1, 2, FALSE), Rep(Cat(<<La, Look(AnyC)>>), 1, 2, FALSE), Rep(Alt(<<La, Lb>>), 0, 2, FALSE), Opt(Plus(La)), Opt(Star(Cat(<<La, Lb>>)))
 >>
 
-NContexts == 36
+NContexts == 41
 Ctx(i, H) ==
    CASE i = 1  -> H
      [] i = 2  -> Cat(<<E0, H>>)
@@ -154,6 +154,13 @@ Ctx(i, H) ==
      [] i = 34 -> Cat(<<Rep(H, 0, 1, FALSE), Lb, E0>>)
      [] i = 35 -> Cat(<<LookB(Cat(<<Grp(101, H), Lb>>)), Bref(101)>>)
      [] i = 36 -> Alt(<<Cat(<<H, Lc, E0>>), Cat(<<Shift(H, 100), Lb>>)>>)
+     \* a back-reference to a group that sits in a LATER alternative of the same length as an earlier one (the group must stay re-enterable)
+     [] i = 37 -> Cat(<<Alt(<<La, Grp(101, H)>>), Bref(101)>>)
+     \* word-boundary neighbours (plain syntax, yet run by the VM): also the C04 contexts
+     [] i = 38 -> Cat(<<H, Asrt("nwb")>>)
+     [] i = 39 -> Cat(<<Asrt("nwb"), H>>)
+     [] i = 40 -> Cat(<<Grp(101, H), Asrt("nwb")>>)
+     [] i = 41 -> Cat(<<Asrt("wb"), H, Lb>>)
 
 \* a context/filler pair is in the space when the result is well-formed for the parser/compiler
 CtxOK(e) ==
@@ -169,6 +176,14 @@ CtxFill == { [c |-> i, f |-> j] : i \in 1..NContexts, j \in 1..Len(Fillers) }
 CtxFillPats ==
    LET S == { Ctx(p.c, Fillers[p.f]) : p \in CtxFill }
        W == { e \in S : CtxOK(e) }
+   IN { LET r == Renumber(e) IN [ast |-> r, ng |-> Len(GroupOrder(e))] : e \in W }
+
+\* C04: contexts x fillers within the syntax shared with the regex crate
+PlainContexts == {1, 12, 13, 38, 39, 40, 41}
+PlainOK(e) == ~HasKind(e, {"look", "lookb", "atom", "bref", "bex", "cond", "keep", "cont", "lwb", "rwb", "eolz"})
+PlainCtxFillPats ==
+   LET S == { Ctx(i, Fillers[j]) : i \in PlainContexts, j \in 1..Len(Fillers) }
+       W == { e \in S : CtxOK(e) /\ PlainOK(e) }
    IN { LET r == Renumber(e) IN [ast |-> r, ng |-> Len(GroupOrder(e))] : e \in W }
 
 (***************************************************************************)
